@@ -165,7 +165,7 @@ impl AttestedCredentialData {
 impl AuthenticatorData {
     #[verifier::external_body]
     pub fn new(rp_id: &str, counter: Option<u32>) -> (r: Self)
-        ensures r.rp_id@ == rp_id@, r.counter == counter, r.attested.is_none(), r.ext_mc.is_none(), r.ext_ga.is_none(), forall|i: u8| 0 <= i < 8 ==> #[trigger] r.flags.has(i) == (i == 3 || i == 4)
+        ensures r.rp_id@ == rp_id@, r.counter == counter, r.attested.is_none(), r.ext_mc.is_none(), r.ext_ga.is_none(), !r.flags.has(0), !r.flags.has(2), !r.flags.has(6), !r.flags.has(7)
     { unimplemented!() }
     #[verifier::external_body]
     pub fn set_flags(self, flags: Flags) -> (r: Self)
